@@ -1013,7 +1013,11 @@ func (r *gridRun) afterRecover() {
 				}
 			}
 			if ln.part == nil {
-				r.c.Fail(keyLost, fmt.Sprintf("entry %d of partition %s is in no data file and the write-ahead log directory is gone", e.Seq, ln.key))
+				what := "the write-ahead log directory is gone"
+				if _, err := os.Stat(gwalDir(r.n.root, ln.key.s, r.famTimes[ln.key.f], ln.key.l)); err == nil {
+					what = "its log directory exists but the recovery walk did not open the partition"
+				}
+				r.c.Fail(keyLost, fmt.Sprintf("entry %d of partition %s is in no data file and %s", e.Seq, ln.key, what))
 			} else {
 				r.c.Fail(keyLost, fmt.Sprintf("entry %d of partition %s is in no data file and not replayable (ack=%d appended=%d)", e.Seq, ln.key, p.ack, p.appended))
 			}
@@ -1029,6 +1033,14 @@ func (r *gridRun) afterRecover() {
 	for s := 0; s < r.nShards; s++ {
 		for _, pk := range obs.iunres[s] {
 			r.c.Fail(keyIdxUnres, fmt.Sprintf("shard %d, series %s: its index posting is durable but its names do not resolve after recovery", s, pk))
+		}
+	}
+	// the ids an entry's names had are those of the process that died: they stay meaningful only for rows that
+	// are in a data file (the dictionaries that issued them were flushed before). For every other entry the
+	// restarted node may issue the same ids to other names; forget them until the entry is applied again.
+	for _, e := range r.entries {
+		if obs.files[e.Slot] == 0 {
+			delete(r.ids, e.Slot)
 		}
 	}
 }
